@@ -1331,6 +1331,20 @@ def b_next(interp, st, args, kwargs):
     if _prev_next is not None:
         yield from _prev_next(interp, st, args, kwargs)
         return
+    if args and args[0].kind == "const" and not isinstance(args[0].d, (str, bytes)) and not hasattr(args[0].d, "__next__"):
+        # (a collection, not an iterator with a position: each `iter()` of it starts at the first element)
+        # next(iter(<constant collection>)) (iter() hands constants through): the first element, StopIteration / default when empty
+        try:
+            items = list(args[0].d)
+        except TypeError:
+            raise Unsupported("next() on this value")
+        if items:
+            yield st, ("ok", const(items[0]))
+        elif len(args) > 1:
+            yield st, ("ok", args[1])
+        else:
+            yield st, (RAISE, interp.make_exception(st, StopIteration, []))
+        return
     raise Unsupported("next() on this value")
 
 
